@@ -10,7 +10,7 @@ import fs from "node:fs";
 import path from "node:path";
 import os from "node:os";
 import { pathToFileURL } from "node:url";
-import { genSplitProject, genWatch } from "./split.mjs";
+import { genSplitProject, genWatch, genEnumLayer } from "./split.mjs";
 
 // ---------- TsCore -> TypeScript text ----------
 const IDENT = /^[A-Za-z_$][A-Za-z0-9_$]*$/;
@@ -104,10 +104,18 @@ export function genTy(rng, d, sc) {
     case 5: case 6: return [A("union"), ...Array.from({ length: 2 + rng.below(2) }, () => genTy(rng, d - 1, sc))];
     case 7: { // discriminated union
       const key = rng.pick(["t", "kind"]);
-      return [A("union"), ...["a", "b", "c"].slice(0, 2 + rng.below(2)).map((v) => [A("obj"), [[key, A("false"), [A("lit"), [A("s"), v]]], ...genObjMembers(rng, d - 1, sc).filter((m) => m[0] !== key)], A("none")])];
+      // sometimes two properties qualify as discriminator (the compiler has to pick one, deterministically)
+      const key2 = rng.chance(1, 3) ? (key === "t" ? "kind" : rng.pick(["t", "a"])) : null;
+      return [A("union"), ...["a", "b", "c"].slice(0, 2 + rng.below(2)).map((v, i) => [A("obj"), [[key, A("false"), [A("lit"), [A("s"), v]]], ...(key2 ? [[key2, A("false"), [A("lit"), [A("s"), ["x", "ab", "c"][i]]]]] : []), ...genObjMembers(rng, d - 1, sc).filter((m) => m[0] !== key && m[0] !== key2)], A("none")])];
     }
     case 8: return [A("inter"), ...Array.from({ length: 2 }, () => (sc.objNames.length && rng.chance(1, 2) ? [A("ref"), rng.pick(sc.objNames)] : genObj(rng, d - 1, sc, false)))];
-    case 9: case 10: if (sc.names.length) { const n = rng.pick(sc.names); return [A("ref"), n.name, ...n.params.map(() => genTy(rng, d - 1, sc))]; } return genLit(rng);
+    case 9: case 10: if (sc.names.length) {
+      const gens = sc.names.filter((n) => n.params.length);
+      const n = sc.params.length && gens.length && rng.chance(1, 2) ? rng.pick(gens) : rng.pick(sc.names);
+      const pref = () => [A("ref"), rng.pick(sc.params)];
+      const argOf = () => (sc.params.length && rng.chance(2, 3) ? rng.pick([[A("array"), pref()], [A("obj"), [["a", A("false"), pref()]], A("none")], [A("union"), pref(), A("null")], [A("tuple"), [pref(), A("number")], A("none")]]) : genTy(rng, d - 1, sc));
+      return [A("ref"), n.name, ...n.params.map(argOf)];
+    } return genLit(rng);
     case 11: return [A("bi"), "Record", rng.pick([A("string"), [A("union"), [A("lit"), [A("s"), "a"]], [A("lit"), [A("s"), "b"]]], A("string")]), genTy(rng, d - 1, sc)];
     case 12: { const o = sc.objNames.length && rng.chance(1, 2) ? [A("ref"), rng.pick(sc.objNames)] : genObj(rng, d - 1, sc, false); return [A("bi"), rng.pick(["Partial", "Required", "Readonly"]), o]; }
     case 13: { const o = genObj(rng, d - 1, sc, false); const ks = o[1].map((m) => m[0]); if (!ks.length) return o; const pick = ks.filter(() => rng.chance(1, 2)); const keys = (pick.length ? pick : [ks[0]]).map((k) => [A("lit"), [A("s"), k]]); return [A("bi"), rng.pick(["Pick", "Omit"]), o, keys.length === 1 ? keys[0] : [A("union"), ...keys]]; }
@@ -125,7 +133,7 @@ export function genProg(rng) {
   const nd = rng.below(4);
   const names = [], objNames = [], decls = [];
   for (let i = 0; i < nd; i++) {
-    const generic = rng.chance(1, 4);
+    const generic = rng.chance(1, 3);
     const params = generic ? ["T"] : [];
     const name = (rng.chance(1, 2) ? "O" : "N") + i;
     const sc = { names: names.slice(), objNames: objNames.slice(), params };
@@ -139,13 +147,31 @@ export function genProg(rng) {
       }
       if (rng.chance(1, 3)) {
         const ext = objNames.length && rng.chance(1, 2) && !generic ? [[A("ref"), rng.pick(objNames)]] : [];
-        decls.push([A("iface"), name, params, ext, members]);
+        // TypeScript only accepts an overriding member whose type is assignable to the inherited one: keep disjoint keys
+        const baseShape = ext.length ? shapeOf([A("prog"), decls, []], ext[0], 0) : null;
+        const baseKeys = new Set(baseShape ? baseShape.props.map((x) => x[0]) : []);
+        decls.push([A("iface"), name, params, ext, members.filter((m) => !baseKeys.has(m[0]) || m[0] === "next" || m[0] === "kids")]);
       } else decls.push([A("alias"), name, params, [A("obj"), members, A("none")]]);
       if (!generic) objNames.push(name);
       names.push(self);
     } else {
       decls.push([A("alias"), name, params, genTy(rng, 2, sc)]);
       names.push({ name, params });
+    }
+  }
+  // a chain of generics, each instantiating the previous one with an argument that contains its own parameter
+  // (same parameter name at every level: the type-application stack has to find the innermost binding)
+  if (rng.chance(1, 6)) {
+    const base = decls.length;
+    const depth = 2 + rng.below(2);
+    const wrap = (t) => rng.pick([[A("array"), t], [A("obj"), [["v", A("false"), t]], A("none")], [A("union"), t, A("null")], [A("tuple"), [t, A("boolean")], A("none")]]);
+    for (let i = 0; i < depth; i++) {
+      const name = "G" + (base + i);
+      const T = [A("ref"), "T"];
+      const body = i === 0 ? [A("obj"), [["value", A("false"), T], ["self", A("true"), rng.chance(1, 3) ? [A("ref"), name, T] : T]], A("none")]
+        : [A("obj"), [["items", A("false"), [A("ref"), "G" + (base + i - 1), wrap(T)]], ["own", A("true"), T]], A("none")];
+      decls.push([A("alias"), name, ["T"], body]);
+      names.push({ name, params: ["T"] });
     }
   }
   const sc = { names, objNames, params: [] };
@@ -383,6 +409,15 @@ function splitFiles(rng, p) { // move some declarations to other files with impo
 }
 // value-level exports read through `typeof`: several members, some unsupported (more than one candidate diagnostic)
 const VALUE_EXPORTS = ['"a"', "1", "true", "null", '{ a: 1, b: "x" }', '["a", 1] as const', '"k" as const', "() => 1", "Symbol()", "new Date()", "undefinedName", "class {}", "1n", "`a${1}`", "[1, 2]", "{ f() {} }", "-1", "!0"];
+function defaultExprProject(rng) {
+  const pad = Array.from({ length: rng.below(6) }, (_, i) => `// padding comment line ${i} ${"x".repeat(rng.below(60))}`).join("\n");
+  const consts = ["const retries = 3;", 'const label = "svc";', "const flag = true;", "const nested = { a: 1 };", "const fn = () => 1;"].filter(() => rng.chance(2, 3)).join("\n");
+  const field = () => rng.pick(["retries", "label", "flag", "nested", "fn", "missingIdent", 'name: "service"', "n: 1", "id: makeId()", "inner: { retries }", "arr: [label, 1]", "...nested", "k: label as string", "neg: -retries", "t: `x${label}`"]);
+  const expr = rng.pick([() => `{ ${Array.from({ length: 1 + rng.below(4) }, field).join(", ")} }`, () => "[retries, label]", () => "retries", () => "makeId()", () => "{ name: \"service\" } as const", () => "label satisfies string"])();
+  const lib = `${pad}\n${consts}\nexport default ${expr};\n`;
+  const use = rng.pick(["typeof cfg", "(typeof cfg)[\"name\"]", "{ c: typeof cfg }", "keyof typeof cfg"]);
+  return [["entry.ts", `import cfg from "./config";\nparse.buildParsers<{ Cfg: ${use} }>();\n`], ["config.ts", lib]];
+}
 function valuesProject(rng) {
   const n = 2 + rng.below(6);
   const names = Array.from({ length: n }, (_, i) => rng.pick(["v", "w", "Z", "a", "m"]) + i);
@@ -394,6 +429,7 @@ function valuesProject(rng) {
 export function genTotal(rng, params) {
   let p = genProg(rng);
   if (rng.chance(1, 12)) return [A("total"), A(String(counter++)), A("none"), valuesProject(rng), []];
+  if (rng.chance(1, 12)) return [A("total"), A(String(counter++)), A("none"), defaultExprProject(rng), []];
   const vals = genValues(rng, p, Number(params[0] || 6));
   const r = rng.below(10);
   let tied = true, files;
@@ -424,6 +460,15 @@ export function gen(rng, params, mode) {
     if (p[1].length) p = [p[0], p[1], [...p[2], ["EX", [A("obj"), p[1].map((d, i) => ["d" + i, A(rng.chance(1, 3) ? "true" : "false"), [A("ref"), d[1], ...d[2].map(() => { const ng = p[1].filter((x) => x[2].length === 0); return ng.length && rng.chance(1, 2) ? [A("ref"), rng.pick(ng)[1]] : A(rng.pick(["string", "number"])); })]]), A("none")]]]];
     const vals = genValues(rng, p, Number(params[0] || 8));
     const sp = genSplitProject(rng, p);
+    if (rng.chance(1, 6) && isAtom(sp.expect, "ok")) { // an enum reached through re-export chains (not modelled in Lean: marker `enum`)
+      const en = genEnumLayer(rng);
+      const addExport = (src, ty) => src.replace(/ \}>\(\);\n$/, `, EN: ${ty} }>();\n`);
+      const single = en.singleDecl + "\n" + addExport(tsOfProg(p), en.singleType);
+      const multi = sp.files.map(([n, t]) => (n === "entry.ts" ? [n, en.entryImport + "\n" + addExport(t, en.entryType)] : [n, t])).concat(en.files);
+      const p2 = [p[0], p[1], [...p[2], ["EN", A("unknown")]]];
+      const extra = ["a", "b", { tag: "b" }, { tag: "a" }, "internal", { tag: "internal2" }, 1, null];
+      return [A("split"), A(String(counter++)), p2, [["entry.ts", single]], [...vals, ...extra].map(encVal), sp.proj, multi, sp.expect, A("enum")];
+    }
     return [A("split"), A(String(counter++)), p, [["entry.ts", tsOfProg(p)]], vals.map(encVal), sp.proj, sp.files, sp.expect, sp.breakKind];
   }
   if (mode === "prog-describe") {
